@@ -748,6 +748,12 @@ static void process_downstream_ack(int userid, int down_seq, int down_frag)
 		   ack, happens a lot with ping packets */
 		return;
 
+	if (users[userid].outpacket.sentlen <= 0)
+		/* Nothing of this fragment has been sent yet, so this cannot
+		   be its ack (stale ack from an earlier packet with the same
+		   seqno) */
+		return;
+
 	/* Received proper ack */
 	users[userid].outpacket.offset += users[userid].outpacket.sentlen;
 	users[userid].outpacket.sentlen = 0;
